@@ -42,6 +42,7 @@ func runC01(c *Ctx) {
 		ruleCopyCtorComplete(c, "COPY-COMPLETE", pkgs, 1)
 		c01KeyByFullName(c)
 		c01WarningsAllFiles(c)
+		ruleClosureFollowsAll(c, "CLOSURE-FOLLOWS-ALL")
 	}
 	p := c.P
 	c.Rule("R-POSTORDER", "closure walks mark before recursing and emit a file after all of its imports", 3)
